@@ -26,6 +26,7 @@ type BCall struct {
 	OutEv  string `json:"out_ev,omitempty"`
 	Err    string `json:"err,omitempty"`
 	Inject bool   `json:"inject,omitempty"`
+	ReplyLost bool `json:"reply_lost,omitempty"`
 	Mono   int64  `json:"mono"`
 	Out    *pokerface.GameState `json:"-"`
 	Opts   *pokerface.GameOptions `json:"-"`
@@ -49,6 +50,8 @@ type RigBackend struct {
 	DeckFn func(opts *pokerface.GameOptions, shuffled []string) []string // nil = keep engine shuffle
 	// Fault decides whether call number n (0-based, over the backend's life) of kind k fails before delegating.
 	Fault func(n int, kind string) bool
+	// ReplyLost (optional): for an injected fault, whether the inner backend is called first and its reply discarded.
+	ReplyLost func(n int, kind string) bool
 	n     int
 }
 
@@ -73,6 +76,11 @@ func (b *RigBackend) rec(kind string, arg int64, in *pokerface.GameState, fn fun
 	if f != nil && f(n, kind) {
 		c.Err = ErrInjected.Error()
 		c.Inject = true
+		if b.ReplyLost != nil && b.ReplyLost(n, kind) {
+			// the backend did the work and the reply got lost (a remote backend timing out): the caller sees an error
+			c.ReplyLost = true
+			fn()
+		}
 		return nil, ErrInjected
 	}
 	out, err := fn()
